@@ -145,7 +145,14 @@ def check_laws(ra, rb, rc, tvmap_r):
         if ma is None or mb is None or mu is None:
             continue
         if mu != (ma or mb):
-            bad("members", f"{ob.src} in unite({a}, {b}) = {uab} is {mu} but in a: {ma}, in b: {mb}", a, b)
+            # KnownValue equality compares the outer type only: Literal[(True, 2)] == Literal[(1, 2)], so one of two such
+            # alternatives is dropped by uniting (recorded finding, keyed separately)
+            twins = [x for v in (a, b) for x in V.flatten_values(v, unwrap_annotated=True)
+                     if isinstance(x, V.KnownValue) and type(x.val) is type(ob.obj) and _safe_eq(x.val, ob.obj) and repr(x.val) != repr(ob.obj)]
+            if twins:
+                out.append(("members|nested-cross-type-equal-literals", f"{ob.src} in unite({a}, {b}) = {uab} is {mu} but in a: {ma}, in b: {mb}"))
+            else:
+                bad("members", f"{ob.src} in unite({a}, {b}) = {uab} is {mu} but in a: {ma}, in b: {mb}", a, b)
             break
 
     # substitution
@@ -170,6 +177,13 @@ def check_laws(ra, rb, rc, tvmap_r):
         if s_u != u_s:
             bad("subst-unite", f"subst(unite(a,b)) = {s_u} but unite(subst a, subst b) = {u_s} for a={a}, b={b}, map={tvmap_r}", a, b)
     return out
+
+
+def _safe_eq(x, y):
+    try:
+        return bool(x == y)
+    except Exception:
+        return False
 
 
 def _is_unreachable_any(v):
